@@ -186,6 +186,10 @@ def gen(seed, tier):
             out.append(f"zeros_like@{ty} {arr(sh)}")
             out.append(f"ones_like@{ty} {arr(sh)}")
             out.append(f"full_like@{ty} {arr(sh)} z5")
+    # fill values no double represents (seeded change C18p: array_full! converted the fill through f64)
+    for v in (2 ** 53 + 1, 2 ** 63 - 2, -(2 ** 63) + 1, 1234567890123456789, -(2 ** 53) - 1):
+        for sh in ([2], [2, 2], [1, 3]):
+            out.append(f"full@i64 {lst(sh)} z{v}")
     for n in range(0, 7):
         out.append(f"identity@{rng.choice(['i32', 'f64'])} z{n}")
         for m in [None] + list(range(0, 7)):
